@@ -344,7 +344,7 @@ PROPS = {
         "verus": [("csvsign", None), ("csvrow", None)],
         "kani": {"quick": [], "thorough": []},
         "family": ("c16", {"quick": [], "thorough": []}),
-        "explanation": "(row statements, group `csvrow`: sliced out of csv::import and checked against the real Txn setters - the transaction of a row moves the configured account by the row's signed amount in the row's commodity on the row's date; a running-balance column becomes exactly that balance assertion in the row's commodity and no column means no assertion; a record the rules did not clear is marked pending; a charge column adds a charge posting and leaves the account posting alone) PARTIAL.  Verus proves the sign clauses on the real functions: FieldMap::amount books a non-empty credit column as +credit, otherwise a non-empty debit column as -debit, neither as an error, and an "
+        "explanation": "(row statements, group `csvrow`: sliced out of csv::import and checked against the real Txn setters - the transaction of a row moves the configured account by the row's signed amount in the row's commodity on the row's date; a running-balance column becomes exactly that balance assertion in the row's commodity and no column means no assertion; a record the rules did not clear is marked pending; a charge column adds a charge posting and leaves the account posting alone; the conversion block: the matching rule's conversion applies, else the account's default one only when the row has rate, secondary amount and secondary commodity, and a conversion flagged `disabled` means none - no fall-back; the counter amount is in the commodity the conversion names, the secondary-commodity column only when it names none; the stated rate is attached to the commodity it prices - price_of_secondary: pair target = secondary commodity and counter amount = amount / rate, price_of_primary: target = primary and amount * rate) PARTIAL.  Verus proves the sign clauses on the real functions: FieldMap::amount books a non-empty credit column as +credit, otherwise a non-empty debit column as -debit, neither as an error, and an "
                        "`amount` column as +amount for an asset and -amount for a liability account; amount_with_sign gives the secondary amount the requested sign and keeps its magnitude and commodity; Neg for "
                        "OwnedAmount/BorrowedAmount negates the value only; the two expressions of Txn::dest_amount (sliced): without a conversion the counter-posting carries the opposite amount, with one the secondary "
                        "amount with the sign opposite to the row's amount; the statement that orders the rows at the end of csv::import (sliced) keeps an oldest-first statement and reverses a newest-first one.  "
@@ -352,7 +352,7 @@ PROPS = {
                        "mapping and templates, the conversion block of csv::import, acceptance by book-keeping: these are exercised, bounded, by the c16 family (16 statement layouts x account types x row orders with and "
                        "without a running balance; conversion cases: default, rule-disabled, account-disabled, compute / price_of_primary) through the real import, to_double_entry and okane's own report::process.",
         "units_doc": ["cli/src/import/csv.rs: FieldMap::amount, row-order statement of import (slice)", "cli/src/import/single_entry.rs: amount_with_sign, Txn::dest_amount (two slices)", "cli/src/import/amount.rs: Neg impls, AmountRef::into_borrowed"],
-        "assumptions": [L0_DECIMAL, "assumed (L1): FieldMap::resolve returns the configured column/template text; str_to_comma_decimal returns None for an empty string, else the number written or an error (it is PrettyDecimal::from_str, C07)",
+        "assumptions": ["slice rate_direction REQUIRES rate != 0: csv::import does not check it - a `rate` cell of 0 with conversion.rate = price_of_secondary divides by zero (seen by reading; `import` is not among the commands C06 lists, so this is noted, not claimed)", L0_DECIMAL, "assumed (L1): FieldMap::resolve returns the configured column/template text; str_to_comma_decimal returns None for an empty string, else the number written or an error (it is PrettyDecimal::from_str, C07)",
                         "stand-ins for csv::StringRecord, Template, ImportError (vx/prelude/csv_stub.rs) and for the amount member of Txn (TxnAmounts)"],
         "bounded": ["c16 family: 16 base configurations (account type x amount / credit-debit columns x row order x running balance) + layout variants (columns by 1-based index, `;` and tab delimiters, three skipped head lines one of them blank) + 2 conversion configurations: 66 statements of 4-5 rows"],
         "not_decided": ["Txn::to_double_entry (bounded family only)", "csv::import as a whole (csv crate reader, record loop, conversion block, templates: bounded family only; the per-row statements are proved on slices)", "that okane's book-keeping accepts the result (bounded family only)"],
